@@ -6,7 +6,7 @@ usage: tools/seedcheck.py <ID> [extra check ids...]
  2. apply the patch to /repo, run ./check <ID> quick (and extra checks), undo
  3. store /verif/seeded/<ID>/{patch.diff, demo.rs, notes.md, meta.json}
 """
-import subprocess, sys, os, json, shutil
+import subprocess, sys, os, json, shutil, re
 args = [a for a in sys.argv[1:] if not a.startswith("--round")]
 ROUND = next((a.split("=")[1] for a in sys.argv[1:] if a.startswith("--round=")), "1")
 ID = args[0]; extra = args[1:]
@@ -29,7 +29,8 @@ sh("git checkout -- src", W)
 r = sh(env + "cargo test --offline --test demo 2>&1 | grep 'test result'", W)
 meta["demo_without_change"] = r.stdout.strip(); meta["ran"].append("cargo test --offline --test demo (without change)")
 sh(f"git apply {OUT}/patch.diff", W)
-ok = ("117 passed" in meta["suite_with_change"]) and meta["demo_with_change_fails"] and ("ok." in meta["demo_without_change"])
+_m = re.search(r"(\d+) passed; (\d+) failed", meta["suite_with_change"])
+ok = (_m is not None and int(_m.group(1)) >= 117 and int(_m.group(2)) == 0) and meta["demo_with_change_fails"] and ("ok." in meta["demo_without_change"])
 meta["confirmed"] = ok
 # run checks against /repo
 assert sh("git status --porcelain", "/repo").stdout.strip() == "", "/repo dirty"
